@@ -1,6 +1,6 @@
 (* Ldot11mgmt — 802.11 management bodies with fixed parts, Dot11InformationElement and the element walk
    (layers/dot11.go as repaired on agent-ldot11): contributions to C19, C05, C06, C07, C01. *)
-From GP Require Import Base Codec MiscLib Ldot11mgmtModel Ldot11mgmtProofs.
+From GP Require Import Base Codec MiscLib Ldot11mgmtModel Ldot11mgmtProofs Ldot11mgmtSer.
 Open Scope Z_scope.
 
 (* the information element: all byte strings, all receiver states *)
@@ -46,21 +46,48 @@ Theorem C01_dot11mgmt_render_total : forall old data ws setsp oldb,
   mg_render_panics (fst (fst (mg_decode_into ws setsp oldb data))) = false.
 Proof. split; reflexivity. Qed.
 
-(* C07 / C06 — STATED, not proved for lack of time; tested on every run (ser:/new:/rt:/rtn: ops, three buffer kinds) *)
-Definition C07_dot11mgmt_no_panic_statement : Prop :=
+(* C07: every element value (any ID, OUI and Info of any length: an error above 255 octets) and every body value;
+   the output is given explicitly (ie_serialize_eq, mg_serialize_eq), so it cannot depend on the buffer's prior content *)
+Theorem C07_dot11mgmt_no_panic :
   (forall l payload fixl csum junk, is_panic (fst (ie_serialize l payload fixl csum junk)) = false) /\
   (forall ws l payload fixl csum junk, widths_ok ws -> is_panic (fst (mg_serialize ws l payload fixl csum junk)) = false).
-Definition C07_dot11mgmt_junk_free_statement : Prop :=
+Proof.
+  split.
+  - intros. rewrite ie_serialize_eq. destruct (ie_len_of l >? 255); reflexivity.
+  - intros ws l payload fixl csum junk Hw. rewrite mg_serialize_eq by exact Hw. reflexivity.
+Qed.
+Print Assumptions C07_dot11mgmt_no_panic.
+
+Theorem C07_dot11mgmt_junk_free :
   (forall l payload fixl csum junk1 junk2, ie_serialize l payload fixl csum junk1 = ie_serialize l payload fixl csum junk2) /\
   (forall ws l payload fixl csum junk1 junk2, widths_ok ws -> mg_serialize ws l payload fixl csum junk1 = mg_serialize ws l payload fixl csum junk2).
-Definition ie_wf (l : ie) : Prop :=
-  bytes_ok (ie_info l) /\ bytes_ok (ie_oui l) /\ 0 <= ie_id l < 256 /\ 0 <= ie_ext l < 256 /\
-  (if ie_id l =? 221 then zlen (ie_oui l) = 4 /\ ie_ext l = 0 else ie_oui l = [] /\ (ie_id l = 255 \/ ie_ext l = 0)) /\
-  zlen (ie_info l) + zlen (ie_oui l) + (if ie_id l =? 255 then 1 else 0) <= 255.
-Definition C06_dot11mgmt_ie_roundtrip_statement : Prop := forall l payload fixl csum junk bytes l' old,
-  ie_wf l -> bytes_ok payload -> ie_serialize l payload fixl csum junk = (Ok bytes, l') ->
+Proof.
+  split.
+  - intros. rewrite !ie_serialize_eq. reflexivity.
+  - intros ws l payload fixl csum junk1 junk2 Hw. rewrite !mg_serialize_eq by exact Hw. reflexivity.
+Qed.
+Print Assumptions C07_dot11mgmt_junk_free.
+
+(* C06 for the element, domain ie_wf: octet ranges, a 4 octet OUI exactly on vendor elements, the extension ID only on
+   ID 255, at most 255 octets: decoding the written bytes into any object gives the fields, Length, Contents and the payload back *)
+Theorem C06_dot11mgmt_ie_roundtrip : forall l payload fixl csum junk bytes l' old,
+  ie_wf l -> ie_serialize l payload fixl csum junk = (Ok bytes, l') ->
   exists d, ie_decode_into old bytes = (d, Ok tt, false) /\ ie_payload d = payload /\ ie_id d = ie_id l /\
-    ie_oui d = ie_oui l /\ ie_info d = ie_info l /\ ie_ext d = ie_ext l /\ ie_len d = zlen bytes - zlen payload - 2.
+    ie_oui d = ie_oui l /\ ie_info d = ie_info l /\ ie_ext d = ie_ext l /\ ie_len d = zlen bytes - zlen payload - 2 /\
+    ie_contents d = ie_bytes l.
+Proof. exact ie_roundtrip. Qed.
+Print Assumptions C06_dot11mgmt_ie_roundtrip.
+
+(* C06 for the bodies that set Payload: a value whose fields have their widths comes back with its payload; Contents is the
+   whole input (Dot11Mgmt.DecodeFromBytes).  Disassociation/Deauthentication: the fields come back the same way, Payload is not set. *)
+Theorem C06_dot11mgmt_body_roundtrip : forall ws l payload fixl csum junk bytes l' old,
+  widths_ok ws -> Forall2 (fun w v => zlen v = w) ws (mg_fields l) -> mg_serialize ws l payload fixl csum junk = (Ok bytes, l') ->
+  exists d, mg_decode_into ws true old bytes = (d, Ok tt, false) /\ mg_fields d = mg_fields l /\ mg_payload d = payload /\ mg_contents d = bytes.
+Proof. exact mg_roundtrip. Qed.
+Print Assumptions C06_dot11mgmt_body_roundtrip.
+
+Example Ldot11mgmt_ie_wf_nonvacuous : ie_wf (mkIe [] [] 255 0 [] [1;2;3] 35) /\ ie_wf (mkIe [] [] 221 0 [0;80;242;1] [7] 0) /\ ie_wf (mkIe [] [] 0 0 [] [65;66] 0).
+Proof. repeat split; try (repeat constructor; cbn; lia); try (cbn; lia); try reflexivity; try (right; reflexivity); cbn; auto. Qed.
 
 Example Ldot11mgmt_nonvacuous :
   (* an extension element written and read back (the repaired path), a vendor element, and a beacon body with two elements *)
